@@ -160,6 +160,68 @@ class BadSig:
     def __call__(self, a): return a
 badsig_instance = BadSig()
 exec("def no_source(*args, **kwargs): return target(*args, **kwargs)")
+# nested constructs inside a forwarding function
+def nested_async_fwd(*args, **kwargs):
+    async def inner_coro(): return target(*args, **kwargs)
+    return inner_coro
+def nested_async_gen_fwd(*args, **kwargs):
+    async def inner_agen():
+        async with contextlib.AsyncExitStack() as st:
+            async for _ in aiter_none():
+                yield target(*args, **kwargs)
+        yield [target(*args, **kwargs) async for _ in aiter_none()]
+    return inner_agen
+def nested_gen_fwd(*args, **kwargs):
+    def inner_gen(): yield from (target(*args, **kwargs) for _ in range(1))
+    return inner_gen
+def nested_class_fwd(*args, **kwargs):
+    class Inner:
+        def meth(self): return target(*args, **kwargs)
+        async def ameth(self): return await asyncio.sleep(0, target(*args, **kwargs))
+    return Inner
+def nested_lambda_default_fwd(*args, **kwargs): return (lambda a=args, k=kwargs: target(*a, **k))
+def nested_try_star_fwd(*args, **kwargs):
+    def inner():
+        try: return target(*args, **kwargs)
+        except* TypeError as eg: raise
+    return inner
+def nested_match_fwd(*args, **kwargs):
+    def inner(v):
+        match v:
+            case {"a": 1, **rest}: return target(*args, **rest)
+            case (1, *others): return target(*others, **kwargs)
+    return inner
+def nested_global_fwd(*args, **kwargs):
+    def inner():
+        global target
+        return target(*args, **kwargs)
+    return inner
+def nested_decorated_fwd(*args, **kwargs):
+    @functools.wraps(target)
+    def inner(*a, **k): return target(*args, *a, **kwargs, **k)
+    return inner
+def nested_type_params_fwd[T](*args: T, **kwargs: T) -> T:
+    def inner[U](u: U) -> U: return target(*args, **kwargs)
+    return inner
+async def aiter_none():
+    if False: yield
+# callees that give the same name different roles: the merged result has no valid parameter list
+def cw1(a, **k): return a
+def cw2(b, *, a, **k): return a
+def cw3(b, a, /): return a
+def cw4(*a, b): return a
+def cw5(a, b=1, *args, c): return a
+def clash12(*args, **kwargs): cw1(*args, **kwargs); return cw2(*args, **kwargs)
+def clash13(*args, **kwargs): cw1(*args, **kwargs); return cw3(*args, **kwargs)
+def clash23(*args, **kwargs): cw2(*args, **kwargs); return cw3(*args, **kwargs)
+def clash14(*args, **kwargs): cw1(*args, **kwargs); return cw4(*args, **kwargs)
+def clash24(*args, **kwargs): cw4(*args, **kwargs); return cw2(*args, **kwargs)
+def clash15(*args, **kwargs): cw5(*args, **kwargs); return cw1(*args, **kwargs)
+def clash25(*args, **kwargs): cw5(*args, **kwargs); return cw2(*args, **kwargs)
+def clash35(*args, **kwargs): cw3(*args, **kwargs); cw5(*args, **kwargs); return cw2(*args, **kwargs)
+def clash_branch(flag, *args, **kwargs):
+    if flag: return cw2(*args, **kwargs)
+    else: return cw1(flag, *args, **kwargs)
 '''
 
 
